@@ -178,13 +178,13 @@ def wire_fields(m, pv):
     """encode the message body with the driver's encoder and read the option fields back with an independent
     reader of the native-protocol layout (QUERY / EXECUTE / BATCH, v2+).  Returns dict or None (v1 / unsupported)."""
     import io, struct
-    if pv < 2 or pv in (65,):
-        return None
     f = io.BytesIO()
     try:
         m.send_body(f, pv)
     except Exception as e:  # noqa
         return {'error': type(e).__name__}
+    if pv < 2 or pv in (65,):
+        return {}                # encodable; layout not read back (v1: positional, DSE_V1: not transcribed)
     b = f.getvalue()
     pos = [0]
 
@@ -285,4 +285,6 @@ def g_case(case, res):
         got = '(Some (mkFields %s %s %s %s %s %s %s %s %s %s %s))' % (
             zl(res['cl']), oz(res['serial']), oz(res['fetch']), oz(res['ts']), oz(res['keyspace']), oz(res['paging']),
             oz(tz(res['timeout'])), zl(res['retry']), zl(res['rowf']), zl(res['lbp']), spec)
-    return 'ofields_eqb (effective %s %s %s %s %s %s %s %d) %s' % (case['mode'], case['kind'], st, prof, sess, t, oz(case['paging']), case['pv'], got)
+    eff = '(effective %s %s %s %s %s %s %s %d)' % (case['mode'], case['kind'], st, prof, sess, t, oz(case['paging']), case['pv'])
+    enc = 'true' if isinstance(res, tuple) or 'error' not in (res.get('wire') or {}) else 'false'
+    return 'ofields_eqb %s %s && Bool.eqb (encodes_opt %s %s %d) %s' % (eff, got, case['kind'], eff, case['pv'], enc)
